@@ -19,7 +19,7 @@ func init() {
 		Meta: report.Meta{
 			Property: "C16",
 			Rule: "Go function types built with reflect.FuncOf over the type alphabet {int, int8, int16, int32, int64, uint, float32, float64, bool, string, named variants of int / float64 / string / bool, struct{}, []int, error, a concrete error type, chan error, <-chan error, chan int}: " +
-				"FP: every parameter list of 0-2 types plus optional variadic tail x 3 result shapes; FR: every result list of 0-2 types x 2 parameter shapes; CP / CR: the same for commands (results none / error / channel shapes); AB: a converted command abandoned by RestoreAt while its handler runs, then executed again (each call reports its own outcome); NF: non-function values {nil, 0, \"f\", struct{}{}, a channel, a pointer to a function}; " +
+				"FP: every parameter list of 0-2 (quick) / 0-3 (thorough) types plus optional variadic tail x 3 result shapes; FR: every result list of 0-2 types x 2 parameter shapes; CP / CR: the same for commands (results none / error / channel shapes); AB: a converted command abandoned by RestoreAt while its handler runs, then executed again (each call reports its own outcome); NF: non-function values {nil, 0, \"f\", struct{}{}, a channel, a pointer to a function}; " +
 				"each registered through ConvertAndAddFunction / ConvertAndAddCommand with a reflect.MakeFunc probe; for every accepted registration every argument list of length 0-3 (quick) / 0-4 (thorough) over {number 3.7, number -2, number 5000000000 (beyond 32 bits; only compared for parameter kinds it fits), boolean, string} is sent through real script calls (<<call f(..)>>, {f(..)}, <<cmd ..>>); " +
 				"oracle (implications only): registration never panics; non-functions and signatures with a parameter or result outside the bridgeable kinds are refused; if accepted, a call never panics, a count / type mismatch is an error, a matching call delivers the Go conversion of each script value to the declared type and the result (or error) comes back converted; " +
 				"a case is one (signature, argument list, call form); non-trivial = accepted signature",
@@ -117,7 +117,7 @@ func sigString(t reflect.Type) string { return t.String() }
 
 func runC16(ctx *report.Ctx) {
 	types := c16Types()
-	maxArgs := report.Pick(ctx, 3, 3)
+	maxArgs := report.Pick(ctx, 3, 4)
 	ctx.Bound("argument_list_length", maxArgs)
 	// all argument lists
 	var argLists [][]scriptArg
@@ -447,8 +447,10 @@ func runC16(ctx *report.Ctx) {
 
 	pickType := func(c *explore.Chooser, label string) reflect.Type { return types[c.Choose(len(types), label)].t }
 	resultShapesForParams := [][]reflect.Type{{}, {reflect.TypeOf(int(0))}, {reflect.TypeOf(""), errorType}}
+	maxParams := report.Pick(ctx, 2, 3)
+	ctx.Bound("parameters_before_variadic_tail", maxParams)
 	part(ctx, "FP", -1, func(c *explore.Chooser) {
-		n := c.Choose(3, "nparams")
+		n := c.Choose(maxParams+1, "nparams")
 		var in []reflect.Type
 		for i := 0; i < n; i++ {
 			in = append(in, pickType(c, "param"))
